@@ -326,7 +326,9 @@ def _has_plain_error(stderr):
     persist phase, cargo metadata failures, ...)."""
     for l in stderr.splitlines():
         t = l.strip()
-        if t.startswith(("Error", "error:", "Failed", "Caused by")):
+        # miette draws "×" in front of an error (or severity-less) report, "⚠" in front of a warning,
+        # "☞" in front of an advice — also when the report carries a code instead of the "ERROR:" header
+        if t.startswith(("Error", "error:", "Failed", "Caused by", "×")):
             return True
     return False
 
